@@ -348,6 +348,49 @@ func rebuild(text string, root, obj *ref.Node, members []member) string {
 	return sb.String()
 }
 
+// padObject adds unique extra members (value null) to one object of the text whose target accepts
+// arbitrary string names: untyped positions, string-keyed maps, structs (unknown names are ignored
+// or go to the fallback).  The existing members keep their relative order and end up after, before
+// or around the padding.
+func padObject(r *rand.Rand, text string, t reflect.Type, root *ref.Node) string {
+	var ps []*position
+	walk(t, root, "", 0, &ps)
+	var ok []*position
+	for _, p := range ps {
+		if p.untyped() || p.target == "struct" || p.target == "map-string" {
+			if p.target == "struct" && p.fb != nil && p.fb.Type != rawValueType && p.fb.Type.Elem().Kind() == reflect.Struct {
+				continue // fallback elements that are structs: null is fine, but keep the walk simple
+			}
+			ok = append(ok, p)
+		}
+	}
+	if len(ok) == 0 {
+		return ""
+	}
+	p := ok[r.IntN(len(ok))]
+	n, nameLen := 60+r.IntN(12), 8
+	if r.IntN(3) == 0 {
+		nameLen = 100 + r.IntN(80)
+		n = 1024/nameLen - 2 + r.IntN(5)
+	}
+	var pad []member
+	for i := 0; i < n; i++ {
+		pad = append(pad, member{quoteName(fmt.Sprintf("zzpad%s%03d", strings.Repeat("p", nameLen-8), i)), "null"})
+	}
+	old := membersOf(text, p.node)
+	var ms []member
+	switch r.IntN(3) {
+	case 0:
+		ms = append(append(ms, pad...), old...)
+	case 1:
+		ms = append(append(ms, old...), pad...)
+	default:
+		k := r.IntN(len(pad) + 1)
+		ms = append(append(append(ms, pad[:k]...), old...), pad[k:]...)
+	}
+	return rebuild(text, root, p.node, ms)
+}
+
 func membersOf(text string, obj *ref.Node) []member {
 	var ms []member
 	for _, m := range obj.Members {
@@ -1275,6 +1318,20 @@ func generate(w *run.W) {
 			if root == nil {
 				w.Broken("fitted text is not valid JSON: %s", base)
 				return
+			}
+			// every 8th text: one object is padded with many (or long-named) extra members, so that the
+			// planted ambiguity sits around the sizes at which the per-object name set changes its
+			// representation (more than 64 names, more than 1 KiB of names)
+			if r.IntN(8) == 0 {
+				if pb := padObject(r, base, t, root); pb != "" {
+					if pr := parse(pb); pr != nil {
+						base, root = pb, pr
+						w.Count("texts_with_padded_object", 1)
+					} else {
+						w.Broken("padded text is not valid JSON: %s", run.Trunc(pb, 300))
+						return
+					}
+				}
 			}
 			ci := r.IntN(4) == 0
 			cs := candidates(base, t, root, ci)
